@@ -7,7 +7,7 @@ from hypothesis import strategies as st
 
 from .cells import STYLES
 
-NARROW = "abcXYZ 0-_"
+NARROW = "abcXYZ 0-_134m[;"  # incl. characters that also occur inside escape sequences
 CTRL = "\n\t\r\x00\x07\x7f"  # control characters other than ESC / CSI
 WIDE = "Ｅ中한"  # fullwidth E, CJK, Hangul: two columns
 COMBINING = "̤́"  # zero columns
@@ -49,9 +49,30 @@ def text(alphabet, min_size=0, max_size=6):
     return st.text(alphabet=alphabet, min_size=min_size, max_size=max_size)
 
 
+CODE = {"bold": 1, "dark": 2, "italic": 3, "underline": 4, "blink": 5, "invert": 7}
+
+
+def lookalike_run():
+    """a run whose text is a piece of its own escape codes ('34' in blue, '1m' in bold, '[44m' on blue ...), possibly
+    with one more character - text that a search inside the rendered string would find in the wrong place"""
+
+    def mk(t):
+        a, which, lo, hi, extra = t
+        codes = [str(v) if k in ("fg", "bg") else str(CODE[k]) for k, v in a.items() if v and (k in ("fg", "bg") or k in CODE)]
+        if not codes:
+            return ["0m", a]
+        full = "[" + codes[which % len(codes)] + "m"
+        lo = lo % len(full)
+        piece = full[lo : lo + 1 + hi % (len(full) - lo)]
+        return [piece + extra, a]
+
+    return st.tuples(atts(False, bias_empty=False), st.integers(0, 7), st.integers(0, 4), st.integers(0, 4), st.sampled_from(["", "", "x", "3", "m"])).map(mk)
+
+
 def desc(alphabet=NARROW, max_runs=5, max_len=5, min_runs=0, allow_false=True, empty_runs=True):
     """FmtStr description [[text, atts], ...]"""
-    run = st.tuples(text(alphabet, 0 if empty_runs else 1, max_len), atts(allow_false)).map(list)
+    plain_run = st.tuples(text(alphabet, 0 if empty_runs else 1, max_len), atts(allow_false)).map(list)
+    run = st.one_of(plain_run, plain_run, plain_run, plain_run, plain_run, plain_run, plain_run, lookalike_run())
     return st.lists(run, min_size=min_runs, max_size=max_runs)
 
 
